@@ -25,12 +25,13 @@ Definition ufunc_z (code : Z) : option (Z -> Z -> Z) :=
 Definition ufunc_cast (code : Z) (a : Z) : Z :=
   if (code =? 4) || (code =? 5) then b2z (nzb a) else a.
 
-(* method(a, b) on Python ints; np.power refuses negative integer exponents *)
+(* method(a, b) on Python ints.  (np.power refuses negative integer exponents; the only use,
+   `reduce_super_ufunc(fill, n_cols - counts)`, has a non-negative exponent; Z.pow gives 0 there.) *)
 Definition ext_apply (method a b : pyv) : res pyv :=
   match method, as_int a, as_int b with
   | VInt c, Some x, Some y =>
     match ufunc_z c with
-    | Some f => if (c =? 9) && (y <? 0) then Raise ValueError else Ok (VInt (f x y))
+    | Some f => Ok (VInt (f x y))
     | None => Raise TypeError
     end
   | _, _, _ => Raise TypeError
@@ -51,4 +52,12 @@ Definition ufunc_ident (code : Z) : option Z :=
   match code with
   | 0 => Some 0 | 1 => Some 1 | 4 => Some 0 | 5 => Some 1 | 6 => Some 0 | 7 => Some (-1) | 8 => Some 0
   | _ => None
+  end.
+
+(* method.identity as a Python value (None for minimum / maximum); also the value of
+   method.reduce(np.empty((0,))) when it exists *)
+Definition ext_identity (method : pyv) : res pyv :=
+  match method with
+  | VInt c => Ok (match ufunc_ident c with Some e => VInt e | None => VNone end)
+  | _ => Raise TypeError
   end.
